@@ -442,3 +442,132 @@ def inplace_then_builtin_programs():
     out.append('stel s = "1é"; lengte(s); s[1] = "23"; [int(s), float(s), lengte(s)]')
     out.append('stel s = "€"; lengte(s); s[0] = "1.5"; [float(s), lengte(s), s]')
     return out
+
+
+def shrinking_text_programs():
+    """texts that get SHORTER or LONGER in place and are then read at every index (round 10): a character replaced by the empty
+    text, by several characters, repeatedly; then s[i] for every i around the old and the new length, lengte, a further write at the
+    old last index — a remembered length, cursor or offset is stale"""
+    out = []
+    for s0 in ["abc", "a", "héé", "a😀b", "xy"]:
+        n = len(s0)
+        for ix in range(-n, n):
+            for r in ["", "pq", "é", "€€€"]:
+                reads = ", ".join("s[%d]" % j for j in range(0, max(0, n - 1 + len(r))))
+                out.append('stel s = "%s"; s[%d] = "%s"; [lengte(s), s, %s]' % (s0, ix, r, reads or "0"))
+                for j in (-1, n - 1, n - 2 + len(r), n - 1 + len(r), 0, -(n - 1 + len(r)) - 1):
+                    out.append('stel s = "%s"; s[%d] = "%s"; s[%d]' % (s0, ix, r, j))
+                    out.append('stel s = "%s"; s[%d] = "%s"; s[%d] = "Z"; s' % (s0, ix, r, j))
+        out.append('stel s = "%s"; stel i = 0; zolang lengte(s) > 0 { s[0] = ""; i += 1 }; [i, s, lengte(s)]' % s0)
+        out.append('stel s = "%s"; stel t = s; s[1 - 1] = ""; [t, lengte(t), s == t]' % s0)
+    # read, then write in front of the read position, then read again (a cursor remembered by the read)
+    for s0, k, i, r in [("aébcd", 3, 1, "xy"), ("aébcd", 4, 1, "xy"), ("a€bcd", 2, 1, "xyz"), ("a€bcd", 3, 1, "éx"), ("😀bcde", 2, 0, "éé"), ("abcdef", 4, 2, "")]:
+        out.append('stel s = "%s"; stel v = s[%d]; s[%d] = "%s"; [v, s[%d], s[%d], s]' % (s0, k, i, r, k, k - 1))
+        out.append('stel s = "%s"; stel t = s; stel j = 0; stel acc = ""; zolang j < lengte(s) { acc = acc + s[j]; als j == %d { t[%d] = "%s" }; j += 1 }; [acc, s]' % (s0, k, i, r))
+    return out
+
+
+def named_literal_clash_programs():
+    """a NAMED function literal in every expression position whose name clashes with a name already in scope (round 10): the target
+    of the assignment it stands in, an outer variable, a global seen from inside a function or block, a parameter, the function it
+    stands in — the literal declares its name in the scope where it STANDS, at the moment it is evaluated, and nowhere else"""
+    out = []
+    for scope in ("%s", "{ %s };", "functie hoofd() { %s }; hoofd()", "als ja { %s }"):
+        for body in [
+            "stel a = 1; a = functie a() { 7 }; a()",
+            "stel a = 1; { a = functie a() { 7 }; }; a()",
+            "stel a = 1; { a = functie a() { 7 }; a() }",
+            "stel a = 1; stel b = functie a() { 7 }; [b(), a()]",
+            "stel a = 1; stel r = [functie a() { 7 }, 2]; stel h = r[0]; [h(), a()]",
+            "stel a = 1; functie t(f) { f() }; [t(functie a() { 7 }), a()]",
+            "stel a = 1; stel w = 0; zolang w < 2 { w += 1; a = functie a() { 7 + w } }; a()",
+            "stel a = 1; functie zet() { a = functie a() { 42 }; 0 }; zet(); a()",
+            "stel a = 1; functie zet(a) { a = functie a() { 42 }; a() }; [zet(5), a]",
+            "stel a = 5; functie g() { functie a() { 9 }; a() }; [g(), a, g()]",
+            "stel a = 5; functie g() { functie a() { 9 }; 0 }; g(); a + 1",
+            "stel a = 5; functie g(n) { als n > 0 { functie a() { n }; antwoord g(n - 1) + a() }; 0 }; [g(3), a]",
+            "stel a = 5; stel v = a + functie a() { 1 }() + a",
+        ]:
+            out.append(scope % body)
+    out.append("a = functie a() { 1 }")
+    out.append("{ a = functie a() { 1 } }")
+    out.append("functie f() { b = functie b() { 1 }; 0 }; f()")
+    return out
+
+
+def long_prefix_text_pairs(rng, n):
+    """pairs of texts that share a LONG common prefix (0..20 bytes) with characters of every width straddling every byte offset
+    (round 10, C06): ordering and equality must be decided by the first differing character wherever it lies; returns source
+    programs comparing them with all six operators, literal and variable operands"""
+    chars = ["a", "b", "z", "0", "é", "ë", "ß", "€", "日", "😀", "\U00010000"]
+    out = []
+    for _ in range(n):
+        pre = "".join(rng.pick(chars) for _ in range(rng.below(9)))
+        x = pre + "".join(rng.pick(chars) for _ in range(rng.below(3)))
+        y = pre + "".join(rng.pick(chars) for _ in range(rng.below(3)))
+        ops = ["<", "<=", ">", ">=", "==", "!="]
+        out.append("[%s]" % ", ".join('"%s" %s "%s"' % (x, op, y) for op in ops))
+        out.append('stel p = "%s"; stel q = "%s"; functie c(u, v) { [u < v, u >= v, u == v] }; [c(p, q), c(q, p), p > q]' % (x, y))
+    for k in range(0, 13):
+        for c in ["é", "€", "😀"]:
+            pre = "1234567890123"[:k] + c
+            for a, b in [("1", "2"), ("", "x"), ("é", "e"), ("z", "é")]:
+                out.append('["%s" < "%s", "%s" > "%s", "%s" == "%s", "%s" <= "%s"]' % (pre + a, pre + b, pre + a, pre + b, pre + a, pre + b, pre + b, pre + a))
+    return out
+
+
+def fresh_result_programs():
+    """every value a builtin, an index read, a concatenation or a literal PRODUCES is a fresh value of that evaluation (round 10):
+    changing it in place must not change what producing it again gives, in the same run - across function returns (collections),
+    in loops, for every type name and every short text (an interned / cached / shared result object)"""
+    prods = ['type(1)', 'type(2.5)', 'type("s")', 'type(ja)', 'type([1])', 'type(type)', 'string(12)', 'string(1.5)', 'string(ja)', 'string("kat")', 'string([1, 2])',
+             '"hallo"[0]', '"hallo"[-1]', '"é€"[1]', '"a" + "b"', '"lit"', '"" + "x"']
+    out = []
+    for p in prods:
+        out.append('stel t = %s; t[0] = "?"; [%s, t, %s == t]' % (p, p, p))
+        out.append('functie niets() { 0 }; stel t = %s; t[0] = "??"; niets(); stel u = %s; niets(); [u, t, lengte(u), lengte(t)]' % (p, p))
+        out.append('stel r = []; stel i = 0; zolang i < 3 { stel t = %s; r = [r, t + ""]; t[0] = string(i); i += 1 }; [r, %s]' % (p, p))
+        out.append('functie maak() { %s }; stel a = maak(); stel b = maak(); a[0] = "#"; [a, b, maak()]' % p)
+    return out
+
+
+def float_spelling_programs():
+    """float literals keep their exact spelling (round 10): any number of digits after (and before) the point - up to and beyond
+    the 22 decimals where a power of ten stops being exact, the 308/324 decimals where values become subnormal / zero - with short
+    and long mantissas; each is read as the correctly rounded double (the model reads exactly), as literal and through float()"""
+    out = []
+    tails = ["1", "5", "25", "9", "123456789", "9007199254740993", "4999999999999999", "17976931348623157"]
+    for k in list(range(0, 40)) + list(range(40, 340, 7)) + [300, 305, 306, 307, 308, 309, 320, 322, 323, 324, 325, 330, 400]:
+        for t in (tails if k < 40 or k % 3 == 0 else tails[:3]):
+            lit = "0." + "0" * k + t
+            out.append("[%s, float(\"%s\") == %s, %s == %s]" % (lit, lit, lit, lit, lit))
+    for k in list(range(0, 30)) + [100, 200, 290, 300, 305, 306, 307, 308]:
+        for t in ("1", "9", "17976931348623157", "123456789"):
+            lit = t + "0" * k + ".0"
+            out.append("[%s, float(\"%s\") == %s]" % (lit, lit, lit))
+            lit2 = t + "0" * k + "." + "0" * (k % 5) + "5"
+            out.append("[%s, %s > %s]" % (lit2, lit2, t + "0" * k + ".0"))
+    out.append("[0.00000000000000000000001 == 0.000000000000000000000010000000000000001, 0.00000000000000000000001 < 0.000000000000000000000010000000000000001]")
+    return out
+
+
+def alias_multiplicity_programs():
+    """HOW MANY references lead to a heap value must not matter to a collection (round 10): k aliases of one float / text (globals,
+    the pending value of an assignment statement, list elements, the same value handed down r recursion frames) next to g pieces of
+    garbage and u literals that only the constant table holds, for every small k, g, u, r - then a function returns (collects) and
+    everything is used again: a collector that COUNTS visits instead of objects stops early for exactly one of these"""
+    out = []
+    for k in range(1, 6):
+        for g in range(0, 4):
+            for kind, mk in (("float", "1.5 + 1.0"), ("text", 'string(12) + "x"')):
+                al = " ".join("stel a%d = a0;" % i for i in range(1, k))
+                gar = " ".join("[%d.5, \"g%d\"];" % (i, i) for i in range(g))
+                lits = ' '.join('stel u%d = "lit%d";' % (i, i) for i in range(2))
+                out.append('functie f() { 0 }; stel a0 = %s; %s %s f(); %s f(); [a0, a%d, "na", 2.25, "na" + "", u0, u1]' % (mk, al, gar, lits, k - 1))
+                out.append('functie f() { "uit f" }; stel a0 = %s; %s a0 = a0; %s f(); [f(), a0, "lit", 0.5 + 0.25]' % (mk, al, gar))
+                out.append('functie f() { 0 }; stel a0 = %s; stel l = [%s]; %s f(); "los"; f(); [l, "los", 3.5]' % (mk, ", ".join(["a0"] * k), gar))
+    for r in range(1, 9):
+        out.append('functie macht(x, n) { als n < 1 { antwoord 1.0 }; x * macht(x, n - 1) }; [macht(2.0, %d), "na", 0.125, macht(1.5, %d)]' % (r, r))
+        out.append('functie diep(s, n) { als n < 1 { antwoord lengte(s) }; diep(s, n - 1) + 0 }; stel t = "tekst" + ""; [diep(t, %d), "lit", t, 4.5]' % r)
+        out.append('functie geef(x, n) { als n < 1 { antwoord "klaar" }; geef(x, n - 1) }; geef(2.5 + 0.0, %d)' % r)
+    return out
